@@ -9,7 +9,9 @@
 //!             strategy (select, select_with_limit, select_iter, select_streaming, select_columnar
 //!             both preferences, count, count_column, sum/avg/min/max, legacy text, AST text) and
 //!             compared with the reference model; after every write the whole table is compared.
-//!  * `big`    tables of 1000+ rows (parallel aggregate paths, multi-word bitmaps, sparse nulls).
+//!  * `big`    the same interpreter on tables of 64–260 or 1000–1300 rows (multi-word bitmaps and SIMD
+//!             body/tail split in the vectorised filter, parallel aggregate paths, several batches of
+//!             the default streaming cursor), bulk-loaded by cycling through a few base rows.
 //!
 //! Oracle: `BTreeMap<row id, Vec<V>>` mirrored through every op + the harness's own evaluator
 //! (`types::holds`), cross-checked against `Condition::evaluate` (signature `oracle-drift`).
@@ -216,6 +218,14 @@ fn diff(expected: &[u64], got: &[u64]) -> (Vec<u64>, Vec<u64>) {
     (e.difference(&g).copied().collect(), g.difference(&e).copied().collect())
 }
 
+fn ids_text(ids: &[u64]) -> String {
+    if ids.len() <= 40 {
+        format!("{ids:?}")
+    } else {
+        format!("[{} ids: {:?} … {:?}]", ids.len(), &ids[..8], &ids[ids.len() - 4..])
+    }
+}
+
 fn table_text(m: &Model) -> String {
     if m.rows.len() <= 48 {
         format!("{:?}", m.rows)
@@ -236,7 +246,7 @@ struct Env<'a, 'b, 'c> {
 impl Env<'_, '_, '_> {
     fn describe(&self, c: &Cond) -> String {
         format!(
-            "step {} cond {:?} | hash idx {:?} btree idx {:?} | table {:?}",
+            "step {} cond {:?} | hash idx {:?} btree idx {:?} | table {}",
             self.step,
             c,
             self.m.hash.iter().map(|c| c.name()).collect::<Vec<_>>(),
@@ -277,7 +287,7 @@ impl Env<'_, '_, '_> {
                 sig = format!("{family}:missing-after-rollback");
             }
             let d = self.describe(c);
-            self.ctx.fail(sig, format!("{api}: expected ids {expected:?}, got {got:?} (missing {missing:?}, extra {extra:?}); {d}"))?;
+            self.ctx.fail(sig, format!("{api}: expected ids {}, got {} (missing {}, extra {}); {d}", ids_text(expected), ids_text(&got), ids_text(&missing), ids_text(&extra)))?;
             return Ok(false);
         }
         if full_rows {
@@ -322,7 +332,7 @@ impl Env<'_, '_, '_> {
         }
         if !not_matching.is_empty() {
             let sig = sig_of(family, &[], &not_matching, cause(family, self.m, c, &[], &not_matching));
-            self.ctx.fail(sig, format!("{api}(limit {limit}, offset {offset}) returned non-matching rows {not_matching:?}: got {got:?}, all matches {all:?}; {d}"))?;
+            self.ctx.fail(sig, format!("{api}(limit {limit}, offset {offset}) returned non-matching rows {}: got {}, all matches {}; {d}", ids_text(&not_matching), ids_text(&got), ids_text(all)))?;
             return Ok(false);
         }
         let sig = if looked_at < self.m.rows.len() {
@@ -335,7 +345,7 @@ impl Env<'_, '_, '_> {
         } else {
             format!("{family}:window-untruncated")
         };
-        self.ctx.fail(sig, format!("{api}(limit {limit}, offset {offset}): expected id-ordered window {want:?} of {all:?}, got {got:?}; {d}"))?;
+        self.ctx.fail(sig, format!("{api}(limit {limit}, offset {offset}): expected id-ordered window {} of {}, got {}; {d}", ids_text(&want), ids_text(all), ids_text(&got)))?;
         Ok(false)
     }
 }
@@ -416,7 +426,10 @@ fn run_probe(env: &mut Env, p: &Probe, light: bool) -> Result<(), Fail> {
         let mut l = Vec::new();
         c.leaves(&mut l);
         for (col, _, lit) in l {
-            env.ctx.label(format!("lit:{}", lit.class()));
+            let cl = lit.class();
+            if !matches!(cl, "int" | "int-neg" | "float" | "str" | "bool" | "zero") {
+                env.ctx.label(format!("lit:{cl}"));
+            }
             if *col == Col::Id {
                 env.ctx.label("cond:_id");
             } else if let Col::C(i) = col {
@@ -429,7 +442,7 @@ fn run_probe(env: &mut Env, p: &Probe, light: bool) -> Result<(), Fail> {
 
     // --- select
     let mut select_ok = false;
-    match env.eng.select(TABLE, cond.clone()) {
+    match env.eng.select(&tn(), cond.clone()) {
         Ok(rows) => {
             select_ok = env.check_set(&sel_family, "select", c, &all, &rows, true)?;
             if select_ok && rows.windows(2).any(|w| w[0].id >= w[1].id) {
@@ -442,7 +455,7 @@ fn run_probe(env: &mut Env, p: &Probe, light: bool) -> Result<(), Fail> {
 
     // --- count
     let cnt_family = format!("count/{}", idx.tag());
-    match env.eng.count(TABLE, cond.clone()) {
+    match env.eng.count(&tn(), cond.clone()) {
         Ok(n) => {
             if n != all.len() as u64 {
                 // count returns no rows to diagnose: attribute by the features of the rows the
@@ -462,7 +475,7 @@ fn run_probe(env: &mut Env, p: &Probe, light: bool) -> Result<(), Fail> {
     // the family's un-windowed answer first (a limit no smaller than the table): windows are only
     // compared when that one is right, so a wrong row set is not reported again as a wrong window
     let mut limit_full_ok = false;
-    match env.eng.select_with_limit(TABLE, cond.clone(), m.rows.len() + 1, 0) {
+    match env.eng.select_with_limit(&tn(), cond.clone(), m.rows.len() + 1, 0) {
         Ok(rows) => {
             limit_full_ok = env.check_set(&lim_family, "select_with_limit(limit > table)", c, &all, &rows, true)?;
             if limit_full_ok && rows.windows(2).any(|w| w[0].id >= w[1].id) {
@@ -484,7 +497,7 @@ fn run_probe(env: &mut Env, p: &Probe, light: bool) -> Result<(), Fail> {
         env.ctx.label("windows:skipped(row set already reported)");
     }
     for (limit, offset) in windows {
-        match env.eng.select_with_limit(TABLE, cond.clone(), limit, offset) {
+        match env.eng.select_with_limit(&tn(), cond.clone(), limit, offset) {
             Ok(rows) => {
                 env.check_window(&lim_family, "select_with_limit", c, &all, limit, offset, &rows)?;
             },
@@ -502,7 +515,7 @@ fn run_probe(env: &mut Env, p: &Probe, light: bool) -> Result<(), Fail> {
                 o = o.with_limit(l);
             }
             let fam = if lim.is_some() { &lim_family } else { &sel_family };
-            match env.eng.select_iter(TABLE, cond.clone(), o) {
+            match env.eng.select_iter(&tn(), cond.clone(), o) {
                 Ok(cur) => {
                     let total = cur.total_rows();
                     let mut rows = Vec::new();
@@ -531,7 +544,7 @@ fn run_probe(env: &mut Env, p: &Probe, light: bool) -> Result<(), Fail> {
         // the cursor is a batch loop around select_with_limit: same strategy, same family
         let str_family = lim_family.clone();
         let max_rows = if p.limit == 0 { None } else { Some(p.limit as usize + 2) };
-        let mut b = env.eng.select_streaming_builder(TABLE, cond.clone()).batch_size(p.batch as usize);
+        let mut b = env.eng.select_streaming_builder(&tn(), cond.clone()).batch_size(p.batch as usize);
         if let Some(mr) = max_rows {
             b = b.max_rows(mr);
         }
@@ -555,7 +568,7 @@ fn run_probe(env: &mut Env, p: &Probe, light: bool) -> Result<(), Fail> {
             // default cursor (batch 1000)
             let mut rows = Vec::new();
             let mut failed = false;
-            for r in env.eng.select_streaming(TABLE, cond.clone()) {
+            for r in env.eng.select_streaming(&tn(), cond.clone()) {
                 match r {
                     Ok(r) => rows.push(r),
                     Err(e) => {
@@ -578,7 +591,7 @@ fn run_probe(env: &mut Env, p: &Probe, light: bool) -> Result<(), Fail> {
             continue; // falls back to select: already reported
         }
         let opts = ColumnarScanOptions { projection: None, prefer_columnar: prefer };
-        match env.eng.select_columnar(TABLE, cond.clone(), opts) {
+        match env.eng.select_columnar(&tn(), cond.clone(), opts) {
             Ok(rows) => {
                 env.check_set(fam, if prefer { "select_columnar(prefer)" } else { "select_columnar" }, c, &all, &rows, true)?;
             },
@@ -589,7 +602,7 @@ fn run_probe(env: &mut Env, p: &Probe, light: bool) -> Result<(), Fail> {
         // projection on the aggregate column
         let pc = col_name(p.agg as usize);
         let opts = ColumnarScanOptions { projection: Some(vec![pc.clone()]), prefer_columnar: true };
-        match env.eng.select_columnar(TABLE, cond.clone(), opts) {
+        match env.eng.select_columnar(&tn(), cond.clone(), opts) {
             Ok(rows) => {
                 if env.check_set(&col_family, "select_columnar(projection)", c, &all, &rows, false)? {
                     for r in &rows {
@@ -613,7 +626,7 @@ fn run_probe(env: &mut Env, p: &Probe, light: bool) -> Result<(), Fail> {
         let an = col_name(ai);
         let vals: Vec<&V> = all.iter().map(|id| &m.rows[id][ai]).collect();
         let nonnull: Vec<&V> = vals.iter().copied().filter(|v| !v.is_null()).collect();
-        match env.eng.count_column(TABLE, &an, cond.clone()) {
+        match env.eng.count_column(&tn(), &an, cond.clone()) {
             Ok(n) => {
                 if n != nonnull.len() as u64 {
                     let d = env.describe(c);
@@ -624,7 +637,7 @@ fn run_probe(env: &mut Env, p: &Probe, light: bool) -> Result<(), Fail> {
         }
         let (s, mag, finite) = sum_of(&vals);
         let numeric = nonnull.iter().filter(|v| matches!(v, V::I(_) | V::F(_))).count();
-        match env.eng.sum(TABLE, &an, cond.clone()) {
+        match env.eng.sum(&tn(), &an, cond.clone()) {
             Ok(got) => {
                 if finite {
                     let tol = 1e-9 * mag + 1e-300;
@@ -638,7 +651,7 @@ fn run_probe(env: &mut Env, p: &Probe, light: bool) -> Result<(), Fail> {
             },
             Err(e) => env.read_err("agg", "sum", c, &e)?,
         }
-        match env.eng.avg(TABLE, &an, cond.clone()) {
+        match env.eng.avg(&tn(), &an, cond.clone()) {
             Ok(got) => {
                 let ok = match got {
                     None => numeric == 0,
@@ -657,7 +670,7 @@ fn run_probe(env: &mut Env, p: &Probe, light: bool) -> Result<(), Fail> {
             Err(e) => env.read_err("agg", "avg", c, &e)?,
         }
         for (name, want_ord) in [("min", std::cmp::Ordering::Less), ("max", std::cmp::Ordering::Greater)] {
-            let got = if name == "min" { env.eng.min(TABLE, &an, cond.clone()) } else { env.eng.max(TABLE, &an, cond.clone()) };
+            let got = if name == "min" { env.eng.min(&tn(), &an, cond.clone()) } else { env.eng.max(&tn(), &an, cond.clone()) };
             match got {
                 Ok(got) => {
                     let ok = match &got {
@@ -687,14 +700,15 @@ fn run_probe(env: &mut Env, p: &Probe, light: bool) -> Result<(), Fail> {
         env.ctx.label("agg:skipped(select already reported)");
     }
 
+    let t = tn();
     // --- text: legacy splitter -> select (+ truncate for LIMIT)
     if let Some(w) = render_legacy(c) {
         env.ctx.label("text:legacy");
         if select_ok {
             let fam = format!("text-legacy/{}", idx.tag());
-            let mut queries = vec![(format!("SELECT * FROM {TABLE} WHERE {w}"), None)];
+            let mut queries = vec![(format!("SELECT * FROM {t} WHERE {w}"), None)];
             if p.limit > 0 {
-                queries.push((format!("SELECT * FROM {TABLE} WHERE {w} LIMIT {}", p.limit), Some(p.limit as usize)));
+                queries.push((format!("SELECT * FROM {t} WHERE {w} LIMIT {}", p.limit), Some(p.limit as usize)));
             }
             for (q, lim) in queries {
                 match env.router.execute(&q) {
@@ -724,11 +738,11 @@ fn run_probe(env: &mut Env, p: &Probe, light: bool) -> Result<(), Fail> {
         env.ctx.label("text:ast");
         if vec || select_ok {
             let fam = if vec { "text-ast/vec".to_string() } else { format!("text-ast/{}", idx.tag()) };
-            let mut queries = vec![(format!("SELECT * FROM {TABLE} WHERE {w}"), usize::MAX, 0)];
+            let mut queries = vec![(format!("SELECT * FROM {t} WHERE {w}"), usize::MAX, 0)];
             match p.offset % 3 {
                 0 => {},
-                1 => queries.push((format!("SELECT * FROM {TABLE} WHERE {w} LIMIT {}", p.limit), p.limit as usize, 0)),
-                _ => queries.push((format!("SELECT * FROM {TABLE} WHERE {w} LIMIT {} OFFSET {}", p.limit, p.offset), p.limit as usize, p.offset as usize)),
+                1 => queries.push((format!("SELECT * FROM {t} WHERE {w} LIMIT {}", p.limit), p.limit as usize, 0)),
+                _ => queries.push((format!("SELECT * FROM {t} WHERE {w} LIMIT {} OFFSET {}", p.limit, p.offset), p.limit as usize, p.offset as usize)),
             }
             for (q, lim, off) in queries {
                 match env.router.execute_parsed(&q) {
@@ -795,9 +809,21 @@ struct Sut {
     router: QueryRouter,
 }
 
+/// Name of the (single) table of a case.
+fn tn() -> String {
+    "t".to_string()
+}
+
+/// Every case gets a fresh router (store + engines): nothing carries over between cases, and a
+/// replay runs in exactly the environment of the failing case.
+fn with_router(ctx: &mut CaseCtx, f: &dyn Fn(&mut CaseCtx, &Sut) -> Result<(), Fail>) -> Result<(), Fail> {
+    let sut = Sut { router: QueryRouter::new() };
+    f(ctx, &sut)
+}
+
 fn verify_table(ctx: &mut CaseCtx, sut: &Sut, m: &Model, after: &str, step: usize) -> Result<bool, Fail> {
     let eng = sut.router.relational();
-    let rows = match eng.select(TABLE, Condition::True) {
+    let rows = match eng.select(&tn(), Condition::True) {
         Ok(r) => r,
         Err(e) if is_timeout(&e) => return Ok(true),
         Err(e) => {
@@ -826,7 +852,7 @@ fn verify_table(ctx: &mut CaseCtx, sut: &Sut, m: &Model, after: &str, step: usiz
             return Ok(false);
         }
     }
-    match eng.row_count(TABLE) {
+    match eng.row_count(&tn()) {
         Ok(n) if n == all.len() => {},
         other => {
             env.ctx.fail(format!("{after}:row-count"), format!("row_count = {other:?}, model {}", all.len()))?;
@@ -857,8 +883,8 @@ fn apply_dml(ctx: &mut CaseCtx, eng: &RelationalEngine, m: &mut Model, d: &Dml, 
         Dml::Insert { vals, omit_nulls } => {
             let valid = m.row_valid(vals);
             let r = match tx {
-                Some(t) => eng.tx_insert(t, TABLE, to_map(vals, *omit_nulls)),
-                None => eng.insert(TABLE, to_map(vals, *omit_nulls)),
+                Some(t) => eng.tx_insert(t, &tn(), to_map(vals, *omit_nulls)),
+                None => eng.insert(&tn(), to_map(vals, *omit_nulls)),
             };
             match (r, valid) {
                 (Ok(id), true) => {
@@ -893,8 +919,8 @@ fn apply_dml(ctx: &mut CaseCtx, eng: &RelationalEngine, m: &mut Model, d: &Dml, 
             let sets = &sets;
             let valid = m.sets_valid(sets);
             let r = match tx {
-                Some(t) => eng.tx_update(t, TABLE, to_condition(cond), sets_map(sets)),
-                None => eng.update(TABLE, to_condition(cond), sets_map(sets)),
+                Some(t) => eng.tx_update(t, &tn(), to_condition(cond), sets_map(sets)),
+                None => eng.update(&tn(), to_condition(cond), sets_map(sets)),
             };
             match (r, valid) {
                 (Ok(n), true) => {
@@ -934,8 +960,8 @@ fn apply_dml(ctx: &mut CaseCtx, eng: &RelationalEngine, m: &mut Model, d: &Dml, 
         },
         Dml::Delete { cond } => {
             let r = match tx {
-                Some(t) => eng.tx_delete(t, TABLE, to_condition(cond)),
-                None => eng.delete_rows(TABLE, to_condition(cond)),
+                Some(t) => eng.tx_delete(t, &tn(), to_condition(cond)),
+                None => eng.delete_rows(&tn(), to_condition(cond)),
             };
             match r {
                 Ok(n) => {
@@ -965,6 +991,7 @@ fn apply_dml(ctx: &mut CaseCtx, eng: &RelationalEngine, m: &mut Model, d: &Dml, 
 /// UPDATE / DELETE as SQL text through the AST path of the router. Returns None when the statement
 /// cannot be written in the grammar (the caller then uses the API).
 fn apply_text_dml(ctx: &mut CaseCtx, router: &QueryRouter, m: &mut Model, d: &Dml, step: usize) -> Result<Option<DmlOutcome>, Fail> {
+    let t = tn();
     let where_of = |c: &Cond| -> Option<String> {
         match c {
             Cond::True => Some(String::new()),
@@ -975,7 +1002,7 @@ fn apply_text_dml(ctx: &mut CaseCtx, router: &QueryRouter, m: &mut Model, d: &Dm
         Dml::Insert { .. } => return Ok(None),
         Dml::Delete { cond } => {
             let Some(w) = where_of(cond) else { return Ok(None) };
-            (format!("DELETE FROM {TABLE}{w}"), cond, Vec::new())
+            (format!("DELETE FROM {t}{w}"), cond, Vec::new())
         },
         Dml::Update { cond, sets } => {
             let Some(w) = where_of(cond) else { return Ok(None) };
@@ -985,7 +1012,7 @@ fn apply_text_dml(ctx: &mut CaseCtx, router: &QueryRouter, m: &mut Model, d: &Dm
                 let Some(l) = ast_literal(v) else { return Ok(None) };
                 parts.push(format!("{} = {l}", col_name(*i as usize)));
             }
-            (format!("UPDATE {TABLE} SET {}{w}", parts.join(", ")), cond, eff.into_iter().collect())
+            (format!("UPDATE {t} SET {}{w}", parts.join(", ")), cond, eff.into_iter().collect())
         },
     };
     let is_update = matches!(d, Dml::Update { .. });
@@ -1031,9 +1058,12 @@ fn dml_name(d: &Dml) -> &'static str {
 }
 
 fn run_case(case: &Case, ctx: &mut CaseCtx, probe_every_write: bool) -> Result<(), Fail> {
-    let sut = Sut { router: QueryRouter::new() };
+    with_router(ctx, &|ctx, sut| run_case_on(case, ctx, sut, probe_every_write))
+}
+
+fn run_case_on(case: &Case, ctx: &mut CaseCtx, sut: &Sut, probe_every_write: bool) -> Result<(), Fail> {
     let eng = sut.router.relational();
-    if let Err(e) = eng.create_table(TABLE, to_schema(&case.cols)) {
+    if let Err(e) = eng.create_table(&tn(), to_schema(&case.cols)) {
         return Err(Fail::new("create-table:err", format!("create_table failed: {e:?}")));
     }
     let mut m = Model { cols: case.cols.clone(), rows: BTreeMap::new(), next_id: 1, hash: BTreeSet::new(), btree: BTreeSet::new(), rolled_back: false };
@@ -1049,7 +1079,7 @@ fn run_case(case: &Case, ctx: &mut CaseCtx, probe_every_write: bool) -> Result<(
                     DmlOutcome::Diverged => return Ok(()),
                     DmlOutcome::Applied | DmlOutcome::Rejected => {},
                 }
-                if !verify_table(ctx, &sut, &m, dml_name(d), step)? {
+                if !verify_table(ctx, sut, &m, dml_name(d), step)? {
                     return Ok(());
                 }
                 probe_now = probe_every_write;
@@ -1065,7 +1095,7 @@ fn run_case(case: &Case, ctx: &mut CaseCtx, probe_every_write: bool) -> Result<(
                 if matches!(out, DmlOutcome::Diverged) {
                     return Ok(());
                 }
-                if !verify_table(ctx, &sut, &m, &format!("text-{}", dml_name(d)), step)? {
+                if !verify_table(ctx, sut, &m, &format!("text-{}", dml_name(d)), step)? {
                     return Ok(());
                 }
                 probe_now = probe_every_write;
@@ -1073,7 +1103,7 @@ fn run_case(case: &Case, ctx: &mut CaseCtx, probe_every_write: bool) -> Result<(
             Op::BatchInsert { rows, omit_nulls } => {
                 let valid = rows.iter().all(|r| m.row_valid(r));
                 let maps: Vec<HashMap<String, Value>> = rows.iter().map(|r| to_map(r, *omit_nulls)).collect();
-                match (eng.batch_insert(TABLE, maps), valid) {
+                match (eng.batch_insert(&tn(), maps), valid) {
                     (Ok(ids), true) => {
                         let want: Vec<u64> = (m.next_id..m.next_id + rows.len() as u64).collect();
                         if ids != want {
@@ -1099,7 +1129,7 @@ fn run_case(case: &Case, ctx: &mut CaseCtx, probe_every_write: bool) -> Result<(
                         return Ok(());
                     },
                 }
-                if !verify_table(ctx, &sut, &m, "batch_insert", step)? {
+                if !verify_table(ctx, sut, &m, "batch_insert", step)? {
                     return Ok(());
                 }
                 probe_now = probe_every_write;
@@ -1107,7 +1137,7 @@ fn run_case(case: &Case, ctx: &mut CaseCtx, probe_every_write: bool) -> Result<(
             Op::CreateIndex(col) | Op::CreateBtree(col) => {
                 let btree = matches!(op, Op::CreateBtree(_));
                 let exists = if btree { m.btree.contains(col) } else { m.hash.contains(col) };
-                let r = if btree { eng.create_btree_index(TABLE, &col.name()) } else { eng.create_index(TABLE, &col.name()) };
+                let r = if btree { eng.create_btree_index(&tn(), &col.name()) } else { eng.create_index(&tn(), &col.name()) };
                 match (r, exists) {
                     (Ok(()), false) => {
                         if btree {
@@ -1129,7 +1159,7 @@ fn run_case(case: &Case, ctx: &mut CaseCtx, probe_every_write: bool) -> Result<(
             Op::DropIndex(col) | Op::DropBtree(col) => {
                 let btree = matches!(op, Op::DropBtree(_));
                 let exists = if btree { m.btree.contains(col) } else { m.hash.contains(col) };
-                let r = if btree { eng.drop_btree_index(TABLE, &col.name()) } else { eng.drop_index(TABLE, &col.name()) };
+                let r = if btree { eng.drop_btree_index(&tn(), &col.name()) } else { eng.drop_index(&tn(), &col.name()) };
                 match (r, exists) {
                     (Ok(()), true) => {
                         if btree {
@@ -1151,7 +1181,7 @@ fn run_case(case: &Case, ctx: &mut CaseCtx, probe_every_write: bool) -> Result<(
             Op::Materialize(cols) => {
                 let names: Vec<String> = cols.iter().map(|i| col_name(*i as usize)).collect();
                 let refs: Vec<&str> = names.iter().map(String::as_str).collect();
-                if let Err(e) = eng.materialize_columns(TABLE, &refs) {
+                if let Err(e) = eng.materialize_columns(&tn(), &refs) {
                     ctx.fail("ddl:materialize", format!("step {step}: materialize_columns({names:?}) failed: {e:?}"))?;
                     return Ok(());
                 }
@@ -1191,7 +1221,7 @@ fn run_case(case: &Case, ctx: &mut CaseCtx, probe_every_write: bool) -> Result<(
                         ctx.label("op:tx rollback with index present");
                     }
                 }
-                if !verify_table(ctx, &sut, &m, if *commit { "tx-commit" } else { "tx-rollback" }, step)? {
+                if !verify_table(ctx, sut, &m, if *commit { "tx-commit" } else { "tx-rollback" }, step)? {
                     return Ok(());
                 }
                 probe_now = true;
@@ -1199,10 +1229,10 @@ fn run_case(case: &Case, ctx: &mut CaseCtx, probe_every_write: bool) -> Result<(
             Op::Check => probe_now = true,
         }
         if probe_now {
-            run_all_probes(ctx, &sut, &m, &case.probes, step, true)?;
+            run_all_probes(ctx, sut, &m, &case.probes, step, true)?;
         }
     }
-    run_all_probes(ctx, &sut, &m, &case.probes, case.ops.len(), false)?;
+    run_all_probes(ctx, sut, &m, &case.probes, case.ops.len(), false)?;
     ctx.note = Some(serde_json::json!({
         "rows_at_end": m.rows.len(),
         "hash_indexes": m.hash.iter().map(|c| c.name()).collect::<Vec<_>>(),
@@ -1241,8 +1271,8 @@ fn main() {
             "legacy text path (QueryRouter::execute): only single leaves, pure AND-chains and pure OR-chains (the legacy splitter has no parentheses and its AND/OR precedence differs from SQL); AST text path (execute_parsed): fully parenthesised, literals restricted to what the lexer produces (no sign, no NaN/inf, no bytes/json)",
         ],
         parts: vec![
-            PropPart::new("paths", 1200, 30_000, paths_strategy, paths_check).shrink_iters(4000).boxed(),
-            PropPart::new("big", 160, 4000, big_part_strategy, big_check).shrink_iters(600).boxed(),
+            PropPart::new("paths", 12_000, 400_000, paths_strategy, paths_check).shrink_iters(4000).boxed(),
+            PropPart::new("big", 600, 10_000, big_part_strategy, big_check).shrink_iters(600).boxed(),
         ],
         children: vec![],
     });
